@@ -48,11 +48,17 @@ PHASES = [0.0, 0.7, -0.7, 1.9, -2.4, 3.141592653589793, 2.6179938779914944, 0.05
 
 @st.composite
 def case_strategy(draw, ctx):
-    # full tensors cost 5-10x (compile + batched 3x3 solves): one case in three, and those always carry a Bloch phase
+    # worker-dependent rotation of the top-level choices: Hypothesis starts every run with the all-minimal example,
+    # which would otherwise be the same case in every worker process
+    rot = getattr(ctx, "seed", 0) * 7 + getattr(ctx, "shard", 0) * 3 + (1 if ctx.lane == "f32" else 0)
+
+    def pick(options):
+        return options[(draw(st.integers(0, len(options) - 1)) + rot) % len(options)]
+
+    # full tensors cost 5-10x (compile + batched 3x3 solves): about one case in three, and those always carry a Bloch phase
     # (the off-diagonal averages read the phase-corrected halo)
-    full = draw(st.integers(0, 2)) == 0
-    nper = draw(st.sampled_from([1, 1, 2, 2, 3]))
-    per_axes = sorted(draw(st.permutations([0, 1, 2]))[:nper])
+    full = pick([True, False, False, False])
+    per_axes = pick([[0], [1], [2], [0, 1], [1, 2], [0, 2], [0, 1, 2], [2], [0, 1], [1]])
     shape, m, faces, phase = [], [], {}, [0.0, 0.0, 0.0]
     any_bloch = full or draw(st.integers(0, 3)) > 0  # 3/4 of the other cases carry a Bloch phase
     for ax in range(3):
@@ -99,7 +105,7 @@ def case_strategy(draw, ctx):
         "mu_tier": mu_tier,
         "sigE": draw(st.sampled_from([None, None, "iso", "diag"])),
         "sigH": draw(st.sampled_from([None, None, None, "iso"])),
-        "field_seed": draw(st.integers(0, 2**31 - 1)),
+        "field_seed": draw(st.integers(0, 2**31 - 1)) + rot,
         "mat_seed": draw(st.integers(0, 2**31 - 1)),
         "impulses": imp,
         "dense": draw(st.sampled_from([1, 1, 1, 0])) if n_imp else 1,
@@ -269,7 +275,7 @@ def body(ctx, case):
 
 
 SUBS = [
-    Sub(name="supercell", body=body, strategy=lambda ctx: case_strategy(ctx), quick=12, thorough=1200,
+    Sub(name="supercell", body=body, strategy=lambda ctx: case_strategy(ctx), quick=10, thorough=1000,
         lanes=("f64", "f32"), f32_fraction=0.25, quick_shards=2,
         rule="periodic/Bloch cell vs tiled supercell, every copy, every step"),
 ]
